@@ -201,15 +201,34 @@ Proof.
   apply info_eqc_fields in Hs.
   destruct Hs as (Hk & Hst & He & Hw & Ht1 & Hti & Hn & Hed & Hm & Hnc).
   destruct x as [xi|xi c|xi ch]; destruct x' as [xi'|xi' c'|xi' ch']; cbn in Hx; try contradiction.
-  all: try (destruct Hx as [Hx Hc]; apply info_eqc_fields in Hc;
-            destruct Hc as (Hck & Hcst & Hce & Hcw & Hct1 & Hcti & Hcn & Hced & Hcm & Hcnc)).
-  all: apply info_eqc_fields in Hx;
+  - apply info_eqc_fields in Hx.
     destruct Hx as (Hxk & Hxst & Hxe & Hxw & Hxt1 & Hxti & Hxn & Hxed & Hxm & Hxnc).
-  all: unfold acc_step, accst_eqc, info_eqc, set_cur; cbn [ninfo a_info a_alt i_kind i_start i_end i_worker i_t1 i_tinf i_nodes i_edges i_cur i_min i_nchild].
-  all: rewrite ?Hk, ?Hst, ?He, ?Hw, ?Ht1, ?Hti, ?Hn, ?Hed, ?Hm, ?Hnc,
-         ?Hxk, ?Hxst, ?Hxe, ?Hxw, ?Hxt1, ?Hxti, ?Hxn, ?Hxed, ?Hxm, ?Hxnc.
-  all: try rewrite ?Hck, ?Hcst, ?Hce, ?Hcw, ?Hct1, ?Hcti, ?Hcn, ?Hced, ?Hcm, ?Hcnc.
-  all: split; reflexivity.
+    unfold acc_step; cbn [ninfo a_info a_alt].
+    rewrite Hk, Hst, He, Hw, Ht1, Hti, Hn, Hed, Hm, Hnc, Hxk, Hxw, Hxt1, Hxti, Hxn, Hxed, Hxm, Hxnc.
+    split; [|reflexivity]. destruct (i_kind xi'); try destruct h; try destruct (oc && _); reflexivity.
+  - apply info_eqc_fields in Hx.
+    destruct Hx as (Hxk & Hxst & Hxe & Hxw & Hxt1 & Hxti & Hxn & Hxed & Hxm & Hxnc).
+    unfold acc_step; cbn [ninfo a_info a_alt].
+    rewrite Hk, Hst, He, Hw, Ht1, Hti, Hn, Hed, Hm, Hnc, Hxk, Hxw, Hxt1, Hxti, Hxn, Hxed, Hxm, Hxnc.
+    split; [|reflexivity]. destruct (i_kind xi'); try destruct h; try destruct (oc && _); reflexivity.
+  - destruct Hx as [Hx Hc]. apply info_eqc_fields in Hc.
+    destruct Hc as (Hck & Hcst & Hce & Hcw & Hct1 & Hcti & Hcn & Hced & Hcm & Hcnc).
+    apply info_eqc_fields in Hx.
+    destruct Hx as (Hxk & Hxst & Hxe & Hxw & Hxt1 & Hxti & Hxn & Hxed & Hxm & Hxnc).
+    unfold acc_step; cbn [ninfo a_info a_alt].
+    rewrite Hk, Hst, He, Hw, Ht1, Hti, Hn, Hed, Hm, Hnc, Hxw, Hxt1, Hxti, Hxn, Hxed, Hxm,
+      Hce, Hcw, Hct1, Hcti, Hcn, Hced, Hcm.
+    split; reflexivity.
+  - apply info_eqc_fields in Hx.
+    destruct Hx as (Hxk & Hxst & Hxe & Hxw & Hxt1 & Hxti & Hxn & Hxed & Hxm & Hxnc).
+    unfold acc_step; cbn [ninfo a_info a_alt].
+    rewrite Hk, Hst, He, Hw, Ht1, Hti, Hn, Hed, Hm, Hnc, Hxk, Hxw, Hxt1, Hxti, Hxn, Hxed, Hxm, Hxnc.
+    split; [|reflexivity]. destruct (i_kind xi'); try destruct h; try destruct (oc && _); reflexivity.
+  - apply info_eqc_fields in Hx.
+    destruct Hx as (Hxk & Hxst & Hxe & Hxw & Hxt1 & Hxti & Hxn & Hxed & Hxm & Hxnc).
+    unfold acc_step; cbn [ninfo a_info a_alt].
+    rewrite Hk, Hst, He, Hw, Ht1, Hti, Hn, Hed, Hm, Hnc, Hxk, Hxw, Hxt1, Hxti, Hxn, Hxed, Hxm, Hxnc.
+    split; [|reflexivity]. destruct (i_kind xi'); try destruct h; try destruct (oc && _); reflexivity.
 Qed.
 
 Lemma acc_loop_eqc : forall oc l l' st st',
